@@ -4,10 +4,11 @@ into /verif/seeded/<PROP>-<k>/ (patch.diff, demonstration, notes, meta.json) and
 import json, os, re, shutil, subprocess, sys
 prop, k = sys.argv[1], sys.argv[2]
 extra = sys.argv[3:]
-src = "/tmp/seed_%s_out/change_%s" % (prop, k)
-dst = "/verif/seeded/%s-%s" % (prop, k)
+import os as _os
+src = (_os.environ.get("SEED_SRC_FMT") or "/tmp/seed_%s_out/change_%s") % (prop, k)
+dst = "/verif/seeded/%s-%s" % (prop, int(k) + int(_os.environ.get("SEED_K_OFFSET", "0")))
 verdict = None
-for lf in ("/tmp/vw/verify_%s.log" % prop, "/tmp/vw/verify_%sb.log" % prop):
+for lf in ("/tmp/vw/verify_%s.log" % prop, "/tmp/vw/verify_%sb.log" % prop, "/tmp/vw/verify2_%s.log" % prop):
     if os.path.exists(lf):
         for l in open(lf):
             if l.startswith("VERDICT %s:" % src):
